@@ -67,3 +67,45 @@ void h_table_layout(void)
   }
   VC_REACH();
 }
+
+/* "Reproduces straight lines exactly" on exact instances: knot spacings 1 or 2, integer slope -2..2 and intercept 0..1.
+ * Every divided difference is then exact, the right-hand side of the tridiagonal system is exactly zero, so every natural-
+ * spline algorithm returns c = d = 0 and b = slope exactly, and the evaluation at multiples of 1/2 is the line itself. */
+#ifdef VC_LINE
+void h_line_reproduction(void)
+{
+  matrix *xy, *S;
+  dvector *xq, *yq;
+  NewMatrix(&xy, VC_NPTS, 2);
+  initMatrix(&S);
+  uint64_t u0 = vc_in_u64(), us = vc_in_u64(), ui = vc_in_u64();
+  VC_ASSUME(u0 <= 1 && us <= 4 && ui <= 1);
+  double x0 = (double)u0, slope = (double)us - 2.0, icpt = (double)ui;
+  double xs[VC_NPTS];
+  for(size_t i = 0; i < VC_NPTS; i++) {
+    if(i == 0)
+      xs[i] = x0;
+    else {
+      uint64_t h = vc_in_u64();
+      VC_ASSUME(h == 1 || h == 2);
+      xs[i] = xs[i - 1] + (double)h;
+    }
+    xy->data[i][0] = xs[i];
+    xy->data[i][1] = slope * xs[i] + icpt;
+  }
+  cubic_spline_interpolation(xy, S);
+  VC_CHECK("coefficient table: one row per interval", S->row == VC_NPTS - 1 && S->col == 5);
+  for(size_t i = 0; i + 1 < VC_NPTS; i++)
+    VC_CHECK("spline of collinear points is the line: b = slope, c = d = 0 on every piece", S->data[i][2] == slope && S->data[i][3] == 0.0 && S->data[i][4] == 0.0);
+  /* evaluation at a multiple of 1/2 inside the knot range */
+  uint64_t k = vc_in_u64();
+  VC_ASSUME(k <= 4 * VC_NPTS);
+  double x = x0 + 0.5 * (double)k;
+  VC_ASSUME(x <= xs[VC_NPTS - 1]);
+  NewDVector(&xq, 1); initDVector(&yq);
+  xq->data[0] = x;
+  cubic_spline_predict(xq, S, yq);
+  VC_CHECK("the spline reproduces a straight line exactly", yq->size == 1 && yq->data[0] == slope * x + icpt);
+  VC_REACH();
+}
+#endif
